@@ -15,7 +15,14 @@ func c12Of(ps []int32, opt []V) []uint64 {
 }
 
 func init() {
-	Exec["bitmap.Of"] = func(a []V) string { return U64s(c12Of(a[0].I32s(), a[1].L)) }
+	// the caller owns the returned bitmap: after rendering it, junk is written into it (a shared or cached result shows
+	// up in a later case)
+	Exec["bitmap.Of"] = func(a []V) string {
+		r := c12Of(a[0].I32s(), a[1].L)
+		out := U64s(r)
+		c12Scribble(r)
+		return out
+	}
 	Exec["bitmap.ToArray"] = func(a []V) string { return I32s(bitmap.ToArray(a[0].U64s())) }
 	Exec["bitmap.Of/ToArray"] = func(a []V) string { return I32s(bitmap.ToArray(c12Of(a[0].I32s(), a[1].L))) }
 	Exec["bitmap.ToArray/Of"] = func(a []V) string { return U64s(bitmap.Of(bitmap.ToArray(a[0].U64s()))) }
@@ -32,7 +39,33 @@ func init() {
 		for i, s := range a[0].L {
 			subs[i] = s.I32s()
 		}
-		return U64s(bitmap.OfMany(subs, a[1].I32s()))
+		r := bitmap.OfMany(subs, a[1].I32s())
+		out := U64s(r)
+		c12Scribble(r)
+		return out
+	}
+	// sub-lists that are windows of ONE flat buffer (any order, overlapping, capacity to the end of the buffer);
+	// OfMany twice on the same arguments; the buffer must be unchanged
+	Exec["bitmap.OfMany/shared"] = func(a []V) string {
+		flat := make([]int32, len(a[0].L))
+		for i, x := range a[0].L {
+			flat[i] = x.I32()
+		}
+		orig := append([]int32{}, flat...)
+		subs := make([][]int32, len(a[1].L))
+		for i, c := range a[1].L {
+			subs[i] = flat[c.L[0].Int():c.L[1].Int()]
+		}
+		sizes := a[2].I32s()
+		r1 := U64s(bitmap.OfMany(subs, sizes))
+		r2 := U64s(bitmap.OfMany(subs, sizes))
+		same := true
+		for i := range orig {
+			if orig[i] != flat[i] {
+				same = false
+			}
+		}
+		return L(r1, r2, B(same))
 	}
 	// [n, [op...]], op = [0, ps, size] (Extend) | [1, p, v] (Set); Words and Offset after every call
 	Exec["bitmap.Builder"] = func(a []V) string {
@@ -107,6 +140,38 @@ func init() {
 		return L(B(U64s(r) == U64s(b.Words)), B(U64s(trim(r)) == U64s(trim(b.Words))), B(b.Offset == tot),
 			U64s(r), U64s(b.Words), I32(b.Offset))
 	}
+	// Builder literal over a caller-supplied buffer (ws0 followed by junk in the spare capacity), Extend / Set /
+	// roll-back (b.Words = b.Words[:k]; b.Offset = 64k); Words and Offset at the start and after every op.
+	// The buffer is built here (not through the guarded accessors: the builder owns its spare capacity).
+	Exec["bitmap.Builder/mem"] = func(a []V) string {
+		n0, spare := len(a[0].L), a[1].Int()
+		buf := make([]uint64, n0+spare)
+		for i, x := range a[0].L {
+			buf[i] = x.U64()
+		}
+		for i := n0; i < len(buf); i++ {
+			buf[i] = 0xdeadbeefcafef00d ^ uint64(i)*0x9e3779b97f4a7c15
+		}
+		b := &bitmap.Builder{Words: buf[:n0], Offset: a[2].I32()}
+		return L(c12MemRun(b, a[3].L)...)
+	}
+	// a session that mixes Of with a Builder: e := Of(nil, n); a Builder working in place on e; then Of([], n) and
+	// OfMany of bit-less segments again (must be all zero), junk written into both results, Of([], n) once more
+	Exec["bitmap.Of/session"] = func(a []V) string {
+		n := a[0].I32()
+		e := bitmap.Of(nil, n)
+		e1 := U64s(e)
+		b := &bitmap.Builder{Words: e}
+		sts := L(c12MemRun(b, a[1].L)...)
+		e2s := bitmap.Of([]int32{}, n)
+		e2 := U64s(e2s)
+		ms := bitmap.OfMany([][]int32{{}, {}}, []int32{n, 0})
+		m := U64s(ms)
+		c12Scribble(e2s)
+		c12Scribble(ms)
+		e3 := U64s(bitmap.Of([]int32{}, n))
+		return L(e1, sts, e2, m, e3)
+	}
 	// widening: the constructors composed with the readers of C01 / C13
 	Exec["bitmap.Of/query"] = func(a []V) string {
 		return c12Query(c12Of(a[0].I32s(), a[1].L), a[2].Bool(), a[3].I32(), a[4].I32())
@@ -123,6 +188,33 @@ func init() {
 		return c12Query(b.Words, a[2].Bool(), a[3].I32(), a[4].I32())
 	}
 	Register("C12", genC12)
+}
+
+// c12Scribble: the caller owns a returned bitmap and may write anything into it
+func c12Scribble(ws []uint64) {
+	for i := range ws {
+		ws[i] = 0x5ca1ab1e5ca1ab1e ^ uint64(i)
+	}
+}
+
+// c12MemRun runs [0,ps,size] (Extend) | [1,p,v] (Set) | [2,k] (roll back to word k) on b; snapshots before and after every op
+func c12MemRun(b *bitmap.Builder, ops []V) []string {
+	snap := func() string { return L(U64s(b.Words), I32(b.Offset)) }
+	out := []string{snap()}
+	for _, op := range ops {
+		switch op.L[0].Int() {
+		case 0:
+			b.Extend(op.L[1].I32s(), op.L[2].I32())
+		case 1:
+			b.Set(op.L[1].I32(), op.L[2].I32())
+		default:
+			k := op.L[1].Int()
+			b.Words = b.Words[:k]
+			b.Offset = int32(64 * k)
+		}
+		out = append(out, snap())
+	}
+	return out
 }
 
 // c12Shape: does OfMany(subs, sizes) stay inside the words it allocates (no panic), is the shifted concatenation
@@ -496,6 +588,63 @@ func c12History(g *Gen) (int, []string, int, string, int, []int32) {
 	return n, ops, mode, strings.Join(fs, "+"), lim, all
 }
 
+// c12MemHistory draws 1..10 ops on a builder whose Offset is off: Extend / Set as in c12History, plus roll-backs to a
+// word-aligned checkpoint k <= off/64 (so k <= len(Words)), typically followed by another Extend
+func c12MemHistory(g *Gen, off int) ([]string, string) {
+	nops := g.R.Range(1, 10)
+	var ops []string
+	feat := map[string]bool{}
+	for o := 0; o < nops; o++ {
+		switch r := g.R.Intn(10); {
+		case r < 5:
+			size := g.R.Pick(0, 1, 5, 63, 64, 65, 100, 128, 200, 300)
+			ps := []int32{}
+			if g.R.Intn(5) > 0 {
+				l := size
+				if l == 0 || g.R.Intn(4) == 0 {
+					l = size + g.R.Pick(1, 64, 65, 200)
+					feat["over"] = true
+				}
+				ps = c12Positions(g, g.R.Intn(5), l, g.R.Pick(1, 3, 8))
+			}
+			ops = append(ops, L("0", I32s(ps), Int(size)))
+			off += size
+		case r < 7:
+			p := g.R.Intn(off + 130)
+			v := g.R.Pick(0, 1, 1, 1, 3, -1)
+			ops = append(ops, L("1", Int(p), Int(v)))
+			if p >= off {
+				off = p + 1
+			}
+		default:
+			k := off / 64
+			switch g.R.Intn(4) {
+			case 0:
+				k = 0
+			case 1:
+				if k > 0 {
+					k--
+				}
+			case 2:
+				k = g.R.Intn(k + 1)
+			}
+			if 64*k < off {
+				feat["cut"] = true
+			}
+			feat["rb"] = true
+			ops = append(ops, L("2", Int(k)))
+			off = 64 * k
+		}
+	}
+	fs := ""
+	for _, f := range []string{"over", "rb", "cut"} {
+		if feat[f] {
+			fs += "+" + f
+		}
+	}
+	return ops, fs
+}
+
 func genC12(g *Gen) {
 	of := func(ps []int32, opt string, bucket string) {
 		g.Stat(bucket)
@@ -538,7 +687,7 @@ func genC12(g *Gen) {
 	}
 
 	// (3) ToArray, Of(ToArray), Get/Get1, SafeGet/SafeGet1
-	nt := g.N(500, 12000)
+	nt := g.N(350, 12000)
 	for k := 0; k < nt; k++ {
 		nw := g.R.Range(0, 12)
 		if g.R.Intn(4) == 0 {
@@ -715,7 +864,7 @@ func genC12(g *Gen) {
 
 	// (8) widening: queries on built bitmaps. Of(ps, n) then Rank64 / Rank128 / NextOne / PrevOne; the same on the
 	// Words of a Builder history. The number of bits is computed here from the statement (not from the result).
-	nq := g.N(1500, 40000)
+	nq := g.N(1000, 40000)
 	for k := 0; k < nq; k++ {
 		style := g.R.Intn(5)
 		ps := c12Positions(g, style, g.R.Pick(70, 200, 700, 2500), g.R.Pick(1, 3, 10, 40))
@@ -740,7 +889,7 @@ func genC12(g *Gen) {
 		g.Stat("of-query")
 		g.Do("bitmap.Of/query", L(I32s(ps), o, B(g.R.Bool()), Int(i), Int(e)), key)
 	}
-	for k := 0; k < g.N(800, 20000); k++ {
+	for k := 0; k < g.N(500, 20000); k++ {
 		n, ops, mode, fs, lim, all := c12History(g)
 		if lim <= 0 {
 			continue
@@ -791,7 +940,7 @@ func genC12(g *Gen) {
 	}
 	// (9b) overhang aimed at REVISITED words: small sizes (1..40) with positions 64..200 far past the size, followed by
 	// segments with small positions that fall back into words the overhang (or an earlier segment) already touched
-	for k := 0; k < g.N(1200, 30000); k++ {
+	for k := 0; k < g.N(800, 30000); k++ {
 		nseg := g.R.Range(2, 5)
 		subs := make([][]int32, nseg)
 		sizes := make([]int32, nseg)
@@ -901,4 +1050,134 @@ func genC12(g *Gen) {
 	}
 	segs(nil)
 	g.Exhaust = append(g.Exhaust, "OfMany / Builder: every list of 0..3 segments over {([],0), ([],1), ([0],1), ([0],64), ([63],64), ([0,63],64), ([64],64), ([0,70],1), ([1],100), ([130],40), ([2],3), ([65,200],10)}")
+
+	// (11) Builder literals over a junk-filled scratch buffer, and roll-backs between calls
+	for k := 0; k < g.N(900, 25000); k++ {
+		nw := g.R.Pick(0, 0, 0, 1, 2, 3)
+		ws0 := g.R.Words(nw)
+		off0 := 64 * nw
+		if nw > 0 && g.R.Intn(3) == 0 {
+			off0 = g.R.Intn(64*nw + 1)
+		}
+		spare := g.R.Pick(0, 1, 3, 8, 40)
+		ops, fs := c12MemHistory(g, off0)
+		g.Stat("builder-mem")
+		g.Do("bitmap.Builder/mem", L(U64s(ws0), Int(spare), Int(off0), L(ops...)), fmt.Sprintf("BM/nw%d/sp%d/%s/ops%d", nw, minInt(spare, 8), fs, (len(ops)+3)/4))
+	}
+	// exhaustive: every history of 1..3 (thorough 4) ops over {Extend([0,70],128), Extend([],128), Extend([5],64), Extend([1],1),
+	// Set(100,1), roll back to 0, roll back to 1} (roll-backs beyond the offset skipped) on an empty builder over 4 junk words
+	type mo struct {
+		s         string
+		kind, arg int // 0 extend by arg, 1 set at arg, 2 roll back to arg
+	}
+	malpha := []mo{{L("0", "[0,70]", "128"), 0, 128}, {L("0", "[]", "128"), 0, 128}, {L("0", "[5]", "64"), 0, 64}, {L("0", "[1]", "1"), 0, 1},
+		{L("1", "100", "1"), 1, 100}, {L("2", "0"), 2, 0}, {L("2", "1"), 2, 1}}
+	mmax := 3
+	if g.Thorough {
+		mmax = 4
+	}
+	var mh func(prefix []string, off int)
+	mh = func(prefix []string, off int) {
+		if len(prefix) > 0 {
+			g.Stat("builder-mem-exh")
+			g.Do("bitmap.Builder/mem", L("[]", "4", "0", L(prefix...)), fmt.Sprintf("BMX/len%d", len(prefix)))
+		}
+		if len(prefix) == mmax {
+			return
+		}
+		for _, c := range malpha {
+			o2 := off
+			switch c.kind {
+			case 0:
+				o2 = off + c.arg
+			case 1:
+				if c.arg >= off {
+					o2 = c.arg + 1
+				}
+			default:
+				if 64*c.arg > off {
+					continue
+				}
+				o2 = 64 * c.arg
+			}
+			mh(append(append([]string{}, prefix...), c.s), o2)
+		}
+	}
+	mh(nil, 0)
+	g.Exhaust = append(g.Exhaust, fmt.Sprintf("Builder over a scratch buffer with 4 junk words: every history of 1..%d ops over {Extend([0,70],128), Extend([],128), Extend([5],64), Extend([1],1), Set(100,1), roll back to word 0, roll back to word 1}", mmax))
+
+	// (12) sessions: Of(nil, n), a Builder working in place on the result, then Of([], n) / OfMany of bit-less segments again
+	for k := 0; k < g.N(400, 10000); k++ {
+		n := g.R.Pick(0, 1, 63, 64, 65, 128, 200, 1000, 4096, 4097)
+		ops, fs := c12MemHistory(g, 0)
+		g.Stat("of-session")
+		g.Do("bitmap.Of/session", L(Int(n), L(ops...)), fmt.Sprintf("OS/n%d/%s", n, fs))
+	}
+
+	// (13) OfMany on sub-lists that share ONE backing array: back to back in order, out of order, overlapping, the same
+	// list twice with different lengths; OfMany runs twice and the buffer must stay unchanged
+	for k := 0; k < g.N(600, 15000); k++ {
+		flat := c12Positions(g, g.R.Intn(4), g.R.Pick(70, 200, 400), g.R.Pick(2, 4, 8, 12))
+		nf := len(flat)
+		var cuts [][2]int
+		kind := g.R.Intn(4)
+		switch kind {
+		case 0, 1: // back to back
+			lo := 0
+			for lo < nf {
+				hi := lo + g.R.Range(0, 3)
+				if hi > nf {
+					hi = nf
+				}
+				cuts = append(cuts, [2]int{lo, hi})
+				if hi == lo && g.R.Bool() {
+					break
+				}
+				lo = hi
+			}
+			if kind == 1 { // out of buffer order
+				for i := len(cuts) - 1; i > 0; i-- {
+					j := g.R.Intn(i + 1)
+					cuts[i], cuts[j] = cuts[j], cuts[i]
+				}
+			}
+		case 2: // the same list with growing lengths
+			for _, h := range []int{1, 3, 2} {
+				if h <= nf {
+					cuts = append(cuts, [2]int{0, h})
+				}
+			}
+		default: // arbitrary windows
+			for c := g.R.Range(1, 4); c > 0; c-- {
+				lo := g.R.Intn(nf + 1)
+				cuts = append(cuts, [2]int{lo, lo + g.R.Intn(nf-lo+1)})
+			}
+		}
+		subs := make([][]int32, len(cuts))
+		sizes := make([]int32, len(cuts))
+		cs := make([]string, len(cuts))
+		big := int32(1)
+		if nf > 0 {
+			big = flat[nf-1] + 1
+		}
+		for i, c := range cuts {
+			subs[i] = flat[c[0]:c[1]]
+			cs[i] = L(Int(c[0]), Int(c[1]))
+			sizes[i] = int32(g.R.Pick(0, 1, 5, 64, 100))
+			if g.R.Bool() {
+				sizes[i] = big
+			}
+		}
+		if fits, _, _ := c12Shape(subs, sizes); !fits {
+			for i := range sizes {
+				sizes[i] = big
+			}
+		}
+		fits, asc, rev := c12Shape(subs, sizes)
+		if !fits {
+			continue
+		}
+		g.Stat("ofmany-shared")
+		g.Do("bitmap.OfMany/shared", L(I32s(flat), L(cs...), I32s(sizes)), fmt.Sprintf("OMS/kind%d/n%d/asc%v/revisit%v", kind, minInt(len(cuts), 3), asc, rev))
+	}
 }
